@@ -1,0 +1,26 @@
+//go:build verif
+
+// Contracts for package countingreader, read by the verification-condition
+// generator in /verif (govc).  Comment-only.
+
+package countingreader
+
+// Read hands the call to the wrapped reader exactly once and returns what it
+// returned (verified).  The io.Reader-level consequence - a CountingReader
+// yields exactly the bytes of the reader it wraps - is the assumed contract of
+// New / NewReadCloser below.
+//@ props C01 C06 C16
+//@ func CountingReader.Read
+//@   nopanic
+//@   requires cw.reader != nil && cw.read != nil
+//@   ensures calls(cw.reader) == old(calls(cw.reader)) + 1
+
+//@ func New
+//@   trusted
+//@   pure
+//@   ensures readall(result) == readall(reader) && readlen(result) == readlen(reader)
+
+//@ func NewReadCloser
+//@   trusted
+//@   pure
+//@   ensures result != nil && readall(result) == readall(readCloser) && readlen(result) == readlen(readCloser)
